@@ -435,4 +435,87 @@ def run(ctx):
                 res.ok('wrapper/%s/%s' % (short, meth), {'wrapper': short + '::' + meth, 'delegates': 'self.arena, own id'})
             else:
                 res.bad('wrapper/%s/%s' % (short, meth), '%s::%s does not simply delegate to its arena with its own id' % (short, meth))
+    a8(F, res)
     return res
+
+
+def a8(F, res):
+    """(a8) the interning arena's keys cannot go stale: `ArenaSet<T>` remembers, per value, the id it handed out, keyed by a
+    clone of the value taken at insertion.  Lookup on re-insertion and un-registration on removal compare / hash the
+    *current* value.  So no field that takes part in `T: Eq + Hash` may be writable once the value sits in the arena
+    (public field, or assigned through `&mut T` anywhere outside construction) - otherwise a deleted id is handed out
+    again, or two ids denote one value - and `eq` and `hash` must look at the same fields."""
+    elems = set()
+    for a in F.adts.values():
+        if not a.get('local'):
+            continue
+        for v in a.get('variants', []):
+            for f in v.get('fields', []):
+                m = re.search(r'arena_set::ArenaSet<([\w:]+)>', f['ty'])
+                if m:
+                    elems.add(m.group(1))
+    if not elems:
+        res.error('interned arenas: no ArenaSet<T> field found')
+        return
+
+    def fields_read(path):
+        b = F.mir.get(path)
+        if b is None:
+            return None
+        out = set()
+
+        def walk(n):
+            if isinstance(n, list):
+                if n and isinstance(n[0], int) and n[0] in (1, 2) and len(n) >= 3 and n[1] == '*' and isinstance(n[2], str) and n[2].startswith('.'):
+                    out.add(n[2][1:])
+                for x in n:
+                    walk(x)
+            elif isinstance(n, dict):
+                for x in n.values():
+                    walk(x)
+        for q in [path] + [k for k in F.mir if k.startswith(path + '::{closure')]:
+            walk(F.mir[q]['blocks'])
+        return out
+    for T in sorted(elems):
+        short = T.split('::')[-1]
+        adt = F.adts.get(T)
+        eqf = fields_read('<%s as std::cmp::PartialEq>::eq' % T)
+        hf = fields_read('<%s as std::hash::Hash>::hash' % T)
+        if adt is None or eqf is None or hf is None:
+            # derived impls compare every field: every field is a key field
+            if adt is None:
+                res.error('interned type %s not found' % T)
+                continue
+            allf = {f['name'] for v in adt['variants'] for f in v['fields']}
+            eqf = allf if eqf is None else eqf
+            hf = allf if hf is None else hf
+        if eqf != hf:
+            res.bad('interned/%s/eq-hash-agree' % short, '%s::eq looks at %s but hash at %s: equal values may hash differently and the '
+                    'interning map misses them' % (short, sorted(eqf), sorted(hf)))
+        else:
+            res.ok('interned/%s/eq-hash-agree' % short, {'type': short, 'key_fields': sorted(eqf)})
+        vis = {f['name']: f.get('vis', '') for v in adt['variants'] for f in v['fields']}
+        writable = {}
+        for f in sorted(eqf | hf):
+            if vis.get(f) == 'Public':
+                writable[f] = 'it is a public field'
+        for p, body in F.mir.items():
+            if re.search(r' as tombstone_arena::Tombstone>::on_delete$', p):
+                continue     # runs on a value that has just been un-registered and is dead from then on
+            for b in body['blocks']:
+                for st in b['stmts']:
+                    if st.get('s') != 'Assign':
+                        continue
+                    for pl, is_w in ((st.get('p') or [], True), (((st.get('r') or {}).get('p') or []) if (st.get('r') or {}).get('rv') == 'Ref'
+                                                                and (st.get('r') or {}).get('mut') else [], True)):
+                        if len(pl) >= 3 and isinstance(pl[0], int) and pl[1] == '*' and isinstance(pl[2], str) and pl[2][1:] in (eqf | hf):
+                            lty = body['locals'][pl[0]]['ty'] if pl[0] < len(body['locals']) else ''
+                            if re.match(r"&('\w+ )?mut %s$" % re.escape(T), lty):
+                                writable.setdefault(pl[2][1:], 'it is written through `&mut %s` in %s' % (short, p.split('::')[-1]))
+        if writable:
+            f, why = sorted(writable.items())[0]
+            res.bad('interned/%s/key-fields-frozen' % short, '%s.%s takes part in the equality/hash that keys the interning arena, but %s: after a '
+                    'change the arena no longer finds (or un-registers) the value under its key - a deleted id is handed out again or '
+                    'one value gets two ids' % (short, f, why))
+        else:
+            res.ok('interned/%s/key-fields-frozen' % short, {'type': short, 'key_fields': sorted(eqf | hf), 'writable_after_insertion': 0})
